@@ -752,8 +752,11 @@ func replay(ctx *core.Ctx, raw json.RawMessage) error {
 		fmt.Printf("  foreign tree: %d nodes, PDF %s, xref %s, objstm %v, update %q; iterator yielded %d pages, NumPages %d; error: %q\n",
 			len(f.Foreign.Nodes), f.Foreign.Version, f.Foreign.XRef, f.Foreign.ObjStm, f.Foreign.Update, len(rec.Iter), rec.NumPages, rec.Err)
 		if len(bad) > 0 {
-			return reportForeign(ctx, foreignOut{f.Foreign, rec, ""})
+			err := reportForeign(ctx, foreignOut{f.Foreign, rec, ""})
+			fmt.Printf("  the reader deviation is reproduced on this tree (extension finding: not a violation of property C16 as stated)\n")
+			return err
 		}
+		fmt.Printf("  the reader's answers are accepted by Trace_PageTree\n")
 		return nil
 	}
 	var c pcase
